@@ -64,6 +64,7 @@ def decompress_roles(fx):
     if dst:
         ren[dst] = 'dst'
     inv = {v: k for k, v in ren.items()}
+    cn0 = _renamer(ren)
     for _, e in fn.elements():
         if e['k'] != 'DeclStmt':
             continue
@@ -71,12 +72,26 @@ def decompress_roles(fx):
             if d.get('init') is None or d.get('dk') != 'Var':
                 continue
             x = fn.strip_all_casts(d['init'])
-            if x['k'] == 'BinaryOperator' and x['op'] in ('+', '-'):
+            txt = cn0(fn.render(fn.deref(d['init']), resolve=True)).replace(' ', '')
+            txt = re.sub(r'\((?:const)?(?:unsignedchar|u8)(?:const)?\*(?:const)?\)\((\w+)\)', r'\1', txt)
+            if txt in ('(dst+out_size)', '(out+out_size)'):
+                ren[d['n']] = 'dst_end'
+            elif txt in ('(src+in_size)', '(in+in_size)'):
+                ren[d['n']] = 'src_end'
+            elif x['k'] == 'BinaryOperator' and x['op'] == '-':
                 l, r = _name(fn, x['c'][0]), _name(fn, x['c'][1])
-                if x['op'] == '+' and l == dst and r == inv.get('out_size'):
-                    ren[d['n']] = 'dst_end'
-                if x['op'] == '-' and l == dst and r == inv.get('match_dist'):
+                if l == dst and r == inv.get('match_dist'):
                     ren[d['n']] = 'pcpy'
+    # the remaining-output budget: the variable the copy lengths are subtracted from (the out_size parameter itself, or a local copy)
+    lens = {inv.get('literal_len'), inv.get('match_len')}
+    budget = set()
+    for _, e in fn.elements():
+        if e['k'] == 'CompoundAssignOperator' and e['op'] == '-=' and _name(fn, e['c'][1]) in lens:
+            budget.add(_name(fn, e['c'][0]))
+    budget.discard(None)
+    if len(budget) == 1 and next(iter(budget)) != inv.get('out_size'):
+        ren[inv['out_size']] = 'out_size_p'
+        ren[next(iter(budget))] = 'out_size'
     return fn, _renamer(ren)
 
 
@@ -137,17 +152,23 @@ def copyguard(run, fx):
     okw = False
     conds = []
     if len(ps) == 3:
-        for b in oc.blocks:
-            t = oc.blocks[b].get('term') or {}
-            c = oc.term_cond(b)
-            if c is not None and t.get('k') in ('DoStmt', 'WhileStmt', 'ForStmt'):
-                for a, pol in dom.atoms(oc, c, True):
-                    f = dom.norm(oc, a, pol, resolve=True)
-                    conds.append(f)
-                    g = (f[2], dom.FLIP[f[1]], f[0]) if f[1] in dom.FLIP else f
-                    for h in (f, g):
-                        if h[0] == ps[1] and h[1] == '<' and _norm(h[2]).strip('()') in ('%s+%s' % (ps[1], ps[2]), 'e'):
-                            okw = True
+        cps = [e for e in calls_in(oc) if 'unaligned_copy' in (e.get('fq') or '')]
+        limit = '%s+%s' % (ps[1], ps[2])
+
+        def strict_below(f):
+            for h in (f, (f[2], dom.FLIP[f[1]], f[0]) if f[1] in dom.FLIP else f):
+                if h[0] == ps[1] and h[1] == '<' and _norm(h[2]).strip('()') == limit:
+                    return True
+            return False
+        # every path from one word copy to the next passes `s < s + n`
+        for e in cps:
+            cb = oc.block_of[e['i']]
+            if any(cb in oc.reachable_from(x) for x in oc.succs(cb)):
+                okw = dom.must_pass(oc, cb, cb, strict_below, start_after=True)
+        for b_ in oc.blocks:
+            c = oc.term_cond(b_)
+            if c is not None:
+                conds += [dom.norm(oc, a_, pol, resolve=True) for a_, pol in dom.atoms(oc, c, True)]
     if okw:
         run.held('COPYGUARD', 'overrun_copy writes align(n) bytes', oc.where(), 'word loop continues while s < s + n (strict)')
     else:
@@ -160,6 +181,7 @@ def copyguard(run, fx):
         raise AnalysisBroken('lz4::decompress: read_sequence call not found')
     fs = cf(dom.facts_at(fn, rs[0]['i']))
     need = [('out_size', '>', 'in_size'), ('in_size', '>=', 'MINSRCSIZE'), ('src', '<', 'src_end'), ('dst', '<', 'dst_end')]
+    fs = fs + [(f[0].replace('out_size_p', 'out_size'), f[1], f[2].replace('out_size_p', 'out_size')) for f in fs if 'out_size_p' in f[0] + f[2]]
     missing = [w for w in need if not any(_match(f, w) for f in fs)]
     if missing:
         run.violated('COPYGUARD', 'entry tests', fn.loc(rs[0]), 'decoding starts without %s' % missing, {'facts': fs})
@@ -167,7 +189,7 @@ def copyguard(run, fx):
         run.held('COPYGUARD', 'entry tests', fn.loc(rs[0]), 'out_size > in_size, in_size >= MINSRCSIZE, no pointer wrap')
 
 
-DEFS = {'pcpy': '(dst-match_dist)', 'dst_end': '(dst+out_size)', 'src_end': '(src+in_size)'}
+DEFS = {'pcpy': '(dst-match_dist)'}
 CONSTS = {'LASTLITERALS': '5', 'MINSRCSIZE': '13', 'MINMATCH': '4', 'MINCODA': '6'}      # verified by LZCONST
 
 
